@@ -10,7 +10,7 @@ CONSTANTS
   MaxKeys = 2
   MaxLs = 2
   MaxLegacy = 1
-  GoodKeys = {1, 2, 4}
+  GoodKeys = {1, 4, 7}
   SvcListeners <- SvcLs3
 INVARIANTS DumpInv
 VIEW GView
